@@ -277,6 +277,11 @@ def gen_decls(rng, rich=False, props=None):
                         'attrs': new_attrs(0)})
         mix = len(classes) - 1
         classes.append({'bases': [mix, mix - 1], 'ifaces': None, 'attrs': new_attrs(0)})
+    # exported objects whose truth value is False or varies (a collection-like object that is empty, `__bool__`):
+    # being exported has nothing to do with being truthy
+    for c in classes:
+        if c['bases'] != ['plain'] and rng.random() < 0.25:
+            c['truth'] = rng.choice(['len0', 'false', 'varies'])
     paths = rng.sample(PATHS, rng.randrange(1, 4))
     if rng.random() < 0.1:
         paths.append(paths[0])          # exported twice: the second export replaces the first
@@ -529,6 +534,15 @@ class Built:
                 ns['dbusInterfaces'] = [self.ifaces[j] for j in c['ifaces']]
             for a in c['attrs']:
                 ns[a['name']] = make_func(self.rec, a['name'], a['fid'], a['deco'], a['wants'], a.get('arity'), a.get('shape'))
+            if c.get('truth') == 'len0':
+                ns['__len__'] = lambda self: 0
+            elif c.get('truth') == 'false':
+                ns['__bool__'] = lambda self: False
+            elif c.get('truth') == 'varies':
+                def __bool__(self):
+                    self.__dict__['_truth_n'] = self.__dict__.get('_truth_n', 0) + 1
+                    return self.__dict__['_truth_n'] % 3 == 0
+                ns['__bool__'] = __bool__
             for pn in c.get('props', []):
                 ns[pn] = objects.DBusProperty(pn, PROP_IFACE)
 
@@ -1351,7 +1365,7 @@ GRID_DECLS = {
                    {'name': 'impl_two_b', 'fid': 3, 'deco': ['org.a', 'two'], 'wants': False},
                    {'name': 'dbus_three', 'fid': 4, 'deco': ['org.a', 'three'], 'wants': False},
                    {'name': 'handler', 'fid': 5, 'deco': ['org.b', 'three'], 'wants': True, 'shape': 'kwargs'}]},
-        {'bases': [0], 'ifaces': [3, 2],
+        {'bases': [0], 'ifaces': [3, 2], 'truth': 'len0',
          'attrs': [{'name': 'handler', 'fid': 6, 'deco': None, 'wants': False},
                    {'name': 'impl_one', 'fid': 7, 'deco': ['org.b', 'one'], 'wants': True, 'arity': 2},
                    {'name': 'dbus_Ping', 'fid': 8, 'deco': None, 'wants': True, 'shape': 'kwonly'},
@@ -1465,6 +1479,8 @@ def judge(ctx, stream, sc, model_out=None):
             ctx.stat('op=' + op['op'])
     if any(c.get('bases') == ['plain'] for c in spec['decls']['classes']):
         ctx.stat('scenario: mixin (multiple inheritance)')
+    for tv in sorted({c['truth'] for c in spec['decls']['classes'] if c.get('truth')}):
+        ctx.stat('scenario: exported class with truth value ' + tv)
     for sh in sorted({a.get('shape') for c in spec['decls']['classes'] for a in c['attrs'] if a.get('shape')}):
         ctx.stat('scenario: method shape ' + sh)
     if model_out is not None:
